@@ -18,7 +18,11 @@
 //
 // kinds: comma list; trace/log: r sr sn br bn (recording processor, simple/batch around a recording / nil exporter);
 //
-//	metric: m p (manual reader, periodic reader around a recording exporter); `-` = none
+//	       a nil-exporter batch processor may carry constructor options after `+`: b WithBlocking (spans only),
+//	       q queue size 2 / export batch size 1, t 1 ms batch timeout / export interval, u export buffer size 1 (logs only)
+//	       — e.g. `bn+bq`; the options do not change what is observable (nothing), only which code path could crash;
+//
+//		metric: m p (manual reader, periodic reader around a recording exporter); `-` = none
 //
 // contexts c: b background, f live with a far deadline, c already cancelled, e 1 ms timeout that has expired
 // obs: <res>[;<i>.<field><delta>…]…   res: - ok err:<flags c d s o> sdk noop v<total> panic hang
@@ -253,8 +257,9 @@ func newTP(kinds []string, optN int, ops []string) (*tpRun, int) {
 	r := &tpRun{w: newWorld(len(kinds)), kinds: kinds, tracers: map[int]trace.Tracer{}, spans: map[int]trace.Span{},
 		gate: &gateCtl{parked: make(chan struct{}), release: make(chan struct{})}}
 	far := sdktrace.WithBatchTimeout(time.Hour)
-	for i, k := range kinds {
+	for i, kk := range kinds {
 		var p sdktrace.SpanProcessor
+		k, kopts, _ := strings.Cut(kk, "+")
 		switch k {
 		case "sr":
 			p = sdktrace.NewSimpleSpanProcessor(recSpanExp{r.w.cs[i]})
@@ -263,7 +268,17 @@ func newTP(kinds []string, optN int, ops []string) (*tpRun, int) {
 		case "br":
 			p = sdktrace.NewBatchSpanProcessor(recSpanExp{r.w.cs[i]}, far)
 		case "bn":
-			p = sdktrace.NewBatchSpanProcessor(nil, far)
+			bo := []sdktrace.BatchSpanProcessorOption{far}
+			if strings.Contains(kopts, "t") {
+				bo = []sdktrace.BatchSpanProcessorOption{sdktrace.WithBatchTimeout(time.Millisecond)}
+			}
+			if strings.Contains(kopts, "b") {
+				bo = append(bo, sdktrace.WithBlocking())
+			}
+			if strings.Contains(kopts, "q") {
+				bo = append(bo, sdktrace.WithMaxQueueSize(2), sdktrace.WithMaxExportBatchSize(1))
+			}
+			p = sdktrace.NewBatchSpanProcessor(nil, bo...)
 		default:
 			p = recSpanProc{r.w.cs[i], i, r.gate}
 		}
@@ -311,7 +326,12 @@ func (r *tpRun) op(tok string) string {
 	case "sd":
 		ctx, cancel := mkCtx(p[1])
 		defer cancel()
-		return resOf(r.tp.Shutdown(ctx))
+		err := r.tp.Shutdown(ctx)
+		if ctx.Err() != nil {
+			// the stock processors finish their shutdown in goroutines that may outlive the call
+			r.w.quiesce()
+		}
+		return resOf(err)
 	case "ff":
 		ctx, cancel := mkCtx(p[1])
 		defer cancel()
@@ -414,8 +434,9 @@ func newLP(kinds []string) *lpRun {
 	r := &lpRun{w: newWorld(len(kinds)), loggers: map[int]otellog.Logger{}}
 	var opts []sdklog.LoggerProviderOption
 	far := sdklog.WithExportInterval(time.Hour)
-	for i, k := range kinds {
+	for i, kk := range kinds {
 		var p sdklog.Processor
+		k, kopts, _ := strings.Cut(kk, "+")
 		switch k {
 		case "sr":
 			p = sdklog.NewSimpleProcessor(recLogExp{r.w.cs[i]})
@@ -425,7 +446,17 @@ func newLP(kinds []string) *lpRun {
 			p = sdklog.NewBatchProcessor(recLogExp{r.w.cs[i]}, far)
 			r.fuzzy = true
 		case "bn":
-			p = sdklog.NewBatchProcessor(nil, far)
+			bo := []sdklog.BatchProcessorOption{far}
+			if strings.Contains(kopts, "t") {
+				bo = []sdklog.BatchProcessorOption{sdklog.WithExportInterval(time.Millisecond)}
+			}
+			if strings.Contains(kopts, "q") {
+				bo = append(bo, sdklog.WithMaxQueueSize(2), sdklog.WithExportMaxBatchSize(1))
+			}
+			if strings.Contains(kopts, "u") {
+				bo = append(bo, sdklog.WithExportBufferSize(1))
+			}
+			p = sdklog.NewBatchProcessor(nil, bo...)
 			r.fuzzy = true
 		default:
 			p = recLogProc{r.w.cs[i]}
@@ -811,8 +842,77 @@ func kindStr(ks []string) string {
 
 var spanKinds = []string{"r", "r", "sr", "sn", "br", "bn"}
 
+// nil-exporter batch processors with every option combination that changes the code path
+var spanNilOpts = []string{"", "+b", "+q", "+t", "+bq", "+bt", "+qt", "+bqt"}
+var logNilOpts = []string{"", "+q", "+t", "+u", "+qt", "+qu", "+tu", "+qtu"}
+
+// withNilOpts decorates every `bn` of ks with a random option combination (half of the time none).
+func withNilOpts(r *vRand, ks []string, opts []string) []string {
+	for i, k := range ks {
+		if k == "bn" && r.Bool() {
+			ks[i] = "bn" + vPick(r, opts)
+		}
+	}
+	return ks
+}
+
+// genNil: processors built around a nil exporter (all option combinations), telemetry ended/emitted on them, then
+// ForceFlush and Shutdown — a crash of a worker goroutine kills the child process and is observed as `panic`.
+func genNil(r *vRand) string {
+	if r.Intn(3) > 0 {
+		n := 1 + r.Intn(3)
+		ks := make([]string, n)
+		for i := range ks {
+			switch r.Intn(5) {
+			case 0:
+				ks[i] = "sn"
+			case 1:
+				ks[i] = "r"
+			default:
+				ks[i] = "bn" + vPick(r, spanNilOpts)
+			}
+		}
+		ops := []string{"tr:0"}
+		for i := range ks {
+			ops = append(ops, fmt.Sprintf("reg:%d", i))
+		}
+		for k := 1 + r.Intn(6); k > 0; k-- {
+			ops = append(ops, "sp:0")
+		}
+		if r.Bool() {
+			ops = append(ops, "ff:"+vPick(r, ctxW), "sp:0")
+		}
+		if r.Intn(4) == 0 {
+			ops = append(ops, fmt.Sprintf("unr:%d", r.Intn(n)), "sp:0")
+		}
+		ops = append(ops, "sd:"+vPick(r, ctxW), "sp:0", "ff:b")
+		return fmt.Sprintf("tp nil %s %d | %s", kindStr(ks), r.Intn(2), strings.Join(ops, " "))
+	}
+	n := 1 + r.Intn(3)
+	ks := make([]string, n)
+	for i := range ks {
+		switch r.Intn(5) {
+		case 0:
+			ks[i] = "sn"
+		case 1:
+			ks[i] = "r"
+		default:
+			ks[i] = "bn" + vPick(r, logNilOpts)
+		}
+	}
+	ops := []string{"lg:0"}
+	for k := 1 + r.Intn(8); k > 0; k-- {
+		ops = append(ops, "em:0")
+	}
+	if r.Bool() {
+		ops = append(ops, "ff:"+vPick(r, ctxW), "em:0", "em:0")
+	}
+	ops = append(ops, "sd:"+vPick(r, ctxW), "em:0", "ff:b")
+	return fmt.Sprintf("lp nil %s | %s", kindStr(ks), strings.Join(ops, " "))
+}
+
 func genTP(r *vRand) string {
-	ks := genKinds(r, spanKinds, 1, 5)
+	ks := withNilOpts(r, genKinds(r, spanKinds, 1, 5), spanNilOpts)
 	n := len(ks)
 	nops := 1 + r.Intn(30)
 	gen := "rnd"
@@ -856,9 +956,9 @@ func genTP(r *vRand) string {
 	return fmt.Sprintf("tp %s %s %d | %s", gen, kindStr(ks), r.Intn(2), strings.Join(ops, " "))
 }
 
-// genF26: the known finding — Shutdown with a done context while processors are registered.
+// genF26: former finding F26 (repaired by f6b676c) — Shutdown with a done context while processors are registered.
 func genF26(r *vRand) string {
-	ks := genKinds(r, spanKinds, 1, 3)
+	ks := withNilOpts(r, genKinds(r, spanKinds, 1, 3), spanNilOpts)
 	ops := []string{"tr:0"}
 	for i := range ks {
 		if i == 0 || r.Bool() {
@@ -866,11 +966,11 @@ func genF26(r *vRand) string {
 		}
 	}
 	ops = append(ops, "sp:0", "sd:"+vPick(r, []string{"c", "e"}), "sp:0", "sd:b", "sp:0", "ff:b", "tr:1", "sp:1")
-	return fmt.Sprintf("tp f26 %s 0 | %s", kindStr(ks), strings.Join(ops, " "))
+	return fmt.Sprintf("tp sdc %s 0 | %s", kindStr(ks), strings.Join(ops, " "))
 }
 
 func genLP(r *vRand) string {
-	ks := genKinds(r, spanKinds, 0, 4)
+	ks := withNilOpts(r, genKinds(r, spanKinds, 0, 4), logNilOpts)
 	nops := 1 + r.Intn(30)
 	var ops []string
 	if r.Intn(3) > 0 {
@@ -1086,6 +1186,8 @@ func TestVerifC15Life(t *testing.T) {
 		switch {
 		case i%50 == 7:
 			lines = append(lines, genF26(r))
+		case i%25 == 13:
+			lines = append(lines, genNil(r))
 		case i%10 < 4:
 			lines = append(lines, genTP(r))
 		case i%10 < 6:
